@@ -568,15 +568,21 @@ Fixpoint alg (e : expr) : algs :=
               if all_const then
                 '(ep1, evs) <- const_ctor ;;
                 let s := vmap (fun x => if inverse then fsqrt (frecip x) else fsqrt x) ep1 in
-                (* scaled_evecs = Kron(evec_i * c_i.sqrt())   [pinned: also for the inverse] *)
-                let scaled := kron_of (map (fun xc => (mscale (snd (fst (fst xc))) (snd (fst xc)) (fsqrt (snd xc)) (fst (fst (fst xc))),
+                (* scaled_evecs = Kron(evec_i * c_i.sqrt()) for the root, Kron(evec_i * c_i.rsqrt()) for the inverse root.
+                   [SPECIFIED behaviour. The pinned tree scales the inverse root by c_i.sqrt() as well — known finding
+                    C06-kpad-kronconst-root-inv, refuted in ProofsKpad.kpad_kronconst_root_inv_pinned_valid_iff.] *)
+                let sc (c : F) := if inverse then frecip (fsqrt c) else fsqrt c in
+                let scaled := kron_of (map (fun xc => (mscale (snd (fst (fst xc))) (snd (fst xc)) (sc (snd xc)) (fst (fst (fst xc))),
                                                        snd (fst (fst xc)), snd (fst xc))) (combine evs consts)) in
                 ret (scale_cols n (s_cols scaled) (s_dat scaled) s, s_cols scaled)
               else
                 '(ep1, Q) <- symm_ctor ;;
                 let s := vmap (fun x => if inverse then fsqrt (frecip x) else fsqrt x) ep1 in
-                (* root: dlt.sqrt() (Q s) ; pinned inverse: (dlt^{-1/2}).inverse() = dlt^{1/2} as well *)
-                ret (scale_rows n n (vsqrt dfull) (scale_cols n n Q s), n)
+                (* root: D^{1/2} (Q s) ; inverse root: D^{-1/2} (Q s).
+                   [SPECIFIED behaviour. The pinned tree inverts the D^{-1/2} it gets back and uses D^{+1/2} for the inverse
+                    root too — known finding C06-kpad-krondiag-root-inv, ProofsKpad.kpad_krondiag_root_inv_pinned.] *)
+                let dscale := if inverse then vmap (fun x => frecip (fsqrt x)) dfull else vsqrt dfull in
+                ret (scale_rows n n dscale (scale_cols n n Q s), n)
           | None => if inverse then '(Ri, kk, _) <- a_rootinvL b ;; ret (Ri, kk) else a_rootL b
           end
         end in
